@@ -25,6 +25,7 @@ def bad (cmds impl : List String) (kind : String) : Bool := (judge cmds impl).an
 #guard ok ["rt a[o]"] ["save 287b2c7d29", "rest a[i0]"]
 #guard bad ["rt s61"] ["save 226122", "err restore_object(): Illegal string format.", "resterr"] "roundtrip-restore-error"
 #guard bad ["rt s61"] ["saveerr"] "save-refused"
+#guard bad ["rt s61"] ["err save_variable: the saved text is longer than maximum string length.", "saveerr"] "save-refused"   -- a text that certainly fits
 #guard bad ["rt s61"] ["save 226122"] "trace missing-rest"
 #guard bad ["rt f7ff0000000000000"] ["save 696e66", "rest i0"] "roundtrip-nonfinite-float-became-0"
 #guard bad ["rt m{f3f1a36e2eb1c432d:i1,f3f1a36e2d51ec34b:i1}"] ["save 00", "rest m{f3f1a36e2eb1c432d:i1}"] "roundtrip-float-keys-print-alike"
@@ -36,6 +37,33 @@ def bad (cmds impl : List String) (kind : String) : Bool := (judge cmds impl).an
 #guard bad ["rv 285b31363a312c5d29"] ["lookup-miss i16 bucket=6 hash=1 size=16", "rest m{i16:i1}"] "mapping-entry-not-found-by-its-key i16"
 #guard bad ["rx m{i16:i1} 285b31363a312c5d29"] ["lookup-miss i16 bucket=6 hash=1 size=16", "rest m{i16:i1}"] "mapping-entry-not-found-by-its-key"
 #guard bad ["ro 0"] ["ro 1", "lookup-miss s61 bucket=6 hash=1 size=16", "vars a[i0,i0,m{s61:i1},i0,i0,i0,i0]"] "mapping-entry-not-found-by-its-key s61"
+
+/-! a file-size limit in the middle of a block; a rename that fails for real -/
+#guard ok ["wf 00", "cl 0"] ["cl n=47", "cl 0 ret=0 old tmp=0", "ck 0 killed old tmp=1", "cl 46 ret=0 old tmp=0", "ck 46 killed old tmp=1", "cl 47 ret=1 new tmp=0", "ck 47 ret=1 new tmp=0"]
+#guard bad ["wf 00", "cl 0"] ["cl n=47", "cl 23 ret=0 other tmp=0"] "atomic-save-file-other at-size-limit"
+#guard bad ["wf 00", "cl 0"] ["cl n=47", "ck 23 killed other tmp=1"] "atomic-save-file-other killed-at-size-limit"
+#guard bad ["wf 00", "cl 0"] ["cl n=47", "cl 23 ret=1 old tmp=0"] "save-reported-success-beyond-size-limit"
+#guard bad ["wf 00", "cl 0"] ["cl n=47", "cl 23 ret=0 old tmp=1"] "tmp-left-behind at-size-limit"
+#guard bad ["wf 00", "cl 0"] ["cl n=47", "cl 47 ret=0 old tmp=0"] "save-failed-within-size-limit"
+#guard bad ["cl 0"] ["cl n=47", "cl 23 ret=0 none tmp=0", "ck 23 childcrash"] "memory childcrash"
+#guard ok ["cl 0"] ["cl n=47", "cl 23 ret=0 none tmp=0"]
+#guard ok ["wf 00", "cl 0", "cl 1"] ["cl n=47", "cl 46 ret=0 old tmp=0", "cl 47 ret=1 new tmp=0", "cl n=20", "cl 19 ret=0 old tmp=0", "cl 20 ret=1 new tmp=0"]
+#guard ok ["sond 61 0 612e6f"] ["so 0 made=1 tmp=612e6f2e746d70 left=0"]
+#guard bad ["sond 61 0 612e6f"] ["so 0 made=1 tmp=612e6f2e746d70 left=1"] "tmp-left-behind after-rename-failure"
+#guard bad ["sond 61 0 612e6f"] ["so 1 made=1 tmp=612e6f2e746d70 left=0"] "save-reported-success-although-rename-failed"
+
+/-! restore into ANOTHER program (version): matching by name -/
+def verCmds := ["prog u v:n:a v:n:b", "prog w v:n:b v:s:a v:n:c", "useg u", "setm a[i5,i6]", "so 0", "useg w", "setm a[i1,i2,i3]"]
+#guard ok (verCmds ++ ["ro 1"]) ["so 1", "file 232f672f752e630a6120350a6220360a", "ro 1", "vars a[i6,i2,i3]"]
+#guard ok (verCmds ++ ["ro 0"]) ["so 1", "file 232f672f752e630a6120350a6220360a", "ro 1", "vars a[i6,i2,i0]"]
+#guard bad (verCmds ++ ["ro 1"]) ["so 1", "file 232f672f752e630a6120350a6220360a", "ro 1", "vars a[i1,i2,i3]"] "roundtrip-value-differs b"          -- b not taken from the file
+#guard bad (verCmds ++ ["ro 1"]) ["so 1", "file 232f672f752e630a6120350a6220360a", "ro 1", "vars a[i6,i5,i3]"] "static-variable-changed-by-restore a" -- a is static now
+#guard bad (verCmds ++ ["ro 1"]) ["so 1", "file 232f672f752e630a6120350a6220360a", "ro 1", "vars a[i6,i2,i0]"] "roundtrip-value-differs c"          -- cleared despite no-clear
+#guard bad (verCmds ++ ["ro 0"]) ["so 1", "file 232f672f752e630a6120350a6220360a", "ro 1", "vars a[i6,i2,i3]"] "roundtrip-value-differs c"          -- not cleared
+
+-- same names, other static flags: still another program
+#guard ok ["prog u v:s:a v:n:b", "prog w v:n:a v:s:b", "useg u", "setm a[i5,i6]", "so 0", "useg w", "setm a[i1,i2]", "ro 1"] ["so 1", "file 232f672f752e630a6220360a", "ro 1", "vars a[i1,i2]"]
+#guard bad ["prog u v:s:a v:n:b", "prog w v:n:a v:s:b", "useg u", "setm a[i5,i6]", "so 0", "useg w", "setm a[i1,i2]", "ro 1"] ["so 1", "file 232f672f752e630a6220360a", "ro 1", "vars a[i5,i2]"] "roundtrip-value-differs a"
 
 /-! memory -/
 #guard bad ["rv 22"] ["sanitizer ERROR: AddressSanitizer: heap-buffer-overflow"] "memory"
